@@ -127,7 +127,7 @@ Proof. exact labels_prop. Qed.
 Theorem C20_labels_class_sizes_partial : forall honour d n p rperc rcuts y,
   gen_labels_o honour d n p rperc rcuts = Ok y -> NoDup d -> separated d ->
   exists req rp rc, requested_percents honour n p = Some req /\
-    rp = used_part n (labels_selector honour n p) rperc /\ rc = used_part n (labels_selector honour n p) rcuts /\
+    rp = used_part (length req) rperc /\ rc = used_part (length req) rcuts /\
     y = map (label rc) d /\
     Forall2 (fun a b => qclose a b = true) rp req /\
     Forall2 (fun pc c => count_near (lenZ d) pc (lenZ (filter (fun x => Qle_bool (inject_Z x) c) d))) rp rc /\
@@ -170,6 +170,12 @@ Theorem C20_labels_ndarray_note : forall n ps,
   forallb (fun pc => Qle_bool 0 pc && Qle_bool pc 100) (prefix_sums 0%Q (map (fun x => (x * 100)%Q) (firstn (Z.to_nat (n - 1)) ps))) = true ->
   label_percents n (PList ps) = Some (prefix_sums 0%Q (map (fun x => (x * 100)%Q) (firstn (Z.to_nat (n - 1)) ps))).
 Proof. exact label_percents_list. Qed.
+
+(* the validator used when np.percentile is not observed: accepted labels are monotone in the decision value *)
+Theorem C20_labels_valid_sound : forall d req y, labels_valid d req y = true ->
+  length y = length d /\
+  forall a b, In a (combine d y) -> In b (combine d y) -> fst a <= fst b -> snd a <= snd b.
+Proof. exact labels_valid_mono. Qed.
 
 (* ---- noise (matrices column-major: one list per feature) ---- *)
 
@@ -274,6 +280,7 @@ Print Assumptions C20_labels_proportion.
 Print Assumptions C20_labels_proportion_partial.
 Print Assumptions C20_labels_cumulative.
 Print Assumptions C20_labels_ndarray_note.
+Print Assumptions C20_labels_valid_sound.
 Print Assumptions C20_noise_cat.
 Print Assumptions C20_noise_cat_check_sound.
 Print Assumptions C20_noise_cat_progress.
